@@ -490,3 +490,33 @@ fn std_slice_to_array() {
     assert!(r2.is_ok() == (n == 2));
     kani::cover!(true);
 }
+
+// ---- R6: std semantics of `iter().any(f)` and `into_iter().filter_map(f).collect()` against loops (bounded) -------
+#[kani::proof]
+#[kani::unwind(5)]
+fn std_filter_map_any_bounded() {
+    let n: usize = kani::any();
+    kani::assume(n <= 3);
+    let mut v: Vec<Result<u8, u8>> = Vec::new();
+    let mut i = 0;
+    while i < n {
+        let x: u8 = kani::any();
+        if kani::any() { v.push(Ok(x)); } else { v.push(Err(x)); }
+        i += 1;
+    }
+    // reference: plain loops
+    let mut any_err = false;
+    let mut oks: Vec<u8> = Vec::new();
+    let mut errs: Vec<u8> = Vec::new();
+    let mut k = 0;
+    while k < n {
+        match v[k] { Ok(a) => oks.push(a), Err(e) => { any_err = true; errs.push(e); } }
+        k += 1;
+    }
+    assert!(v.iter().any(|x| x.is_err()) == any_err);
+    let got_err: Vec<u8> = v.clone().into_iter().filter_map(|x| x.err()).collect();
+    let got_ok: Vec<u8> = v.into_iter().filter_map(|x| x.ok()).collect();
+    assert!(got_err == errs);
+    assert!(got_ok == oks);
+    kani::cover!(true);
+}
